@@ -1,6 +1,7 @@
 import Bclv.Proofs.ParserInv
 import Bclv.Proofs.ParserSync
 import Bclv.Proofs.Grammar6
+import Bclv.Proofs.Grammar7
 /-!
 # C17 — the parser accepts only the grammar, and reports what it rejects
 
@@ -91,6 +92,15 @@ theorem accepted_is_grammatical (toks : List Token) (lfs : List Nat) (hend : las
     (hnf : ∀ t ∈ toks, t.typ ≠ .FAIL) (hok : (parseTokens toks lfs).ok = true) :
     ∃ body e rest, toks = body ++ e :: rest ∧ e.typ.isEnd = true ∧ GProg (typs body) :=
   parse_sound toks lfs hend hnf hok
+
+/-- The same from source text: what the lexer makes of an accepted input is a program of the
+grammar followed by `tEOF` — in particular the lexer reported no failure (`Proofs/Grammar7`:
+the lexer's output has no finalizer before its last token and a final `tFAIL` directly
+follows a `tERR`; a token list of that shape with a `tERR` in it is rejected). -/
+theorem accepted_source_is_grammatical (a : Bytes)
+    (hok : (parseTokens (lexWhole a) (newlinesFrom 0 a)).ok = true) :
+    ∃ body e, lexWhole a = body ++ [e] ∧ e.typ = .EOF ∧ GProg (typs body) :=
+  source_sound a hok
 
 /-- non-vacuity: `print 1` followed by the end token is a program of the grammar -/
 example : GProg [.PRINT, .INT] := by
